@@ -977,6 +977,8 @@ pub open spec fn npm_hyphen(f: Partial, t: Partial) -> Seq<KCmp> {
 }
 pub open spec fn wf_partial(p: Partial) -> bool {
     (p.major matches Some(x) ==> x <= MAX_SAFE_INTEGER) && (p.minor matches Some(x) ==> x <= MAX_SAFE_INTEGER) && (p.patch matches Some(x) ==> x <= MAX_SAFE_INTEGER)
+    // normalised where it is built (partial_version): a wildcard makes everything after it a wildcard
+    && (p.major is None ==> p.minor is None) && (p.minor is None ==> p.patch is None) && (p.patch is None ==> p.pre_release@.len() == 0 && p.build@.len() == 0)
 }
 pub open spec fn lower_cut(cs: Seq<KCmp>) -> Cut { if cs.len() == 0 { Cut::NegInf } else { match cs[0].op { Op::Ge => Cut::At(cs[0].k, false), Op::Gt => Cut::At(cs[0].k, true), Op::Eq => Cut::At(cs[0].k, false), _ => Cut::NegInf } } }
 pub open spec fn upper_cut(cs: Seq<KCmp>) -> Cut { if cs.len() == 0 { Cut::PosInf } else { let c = cs[cs.len() - 1]; match c.op { Op::Le => Cut::At(c.k, true), Op::Lt => Cut::At(c.k, false), Op::Eq => Cut::At(c.k, true), _ => Cut::PosInf } } }
@@ -1955,6 +1957,9 @@ fn caret_desugar(parsed: Partial) -> (r: Option<BoundSet>)
         assert forall|s: Seq<Identifier>| #![trigger s.len()] s.len() == 0 implies s == Seq::<Identifier>::empty() by { assert(s =~= Seq::<Identifier>::empty()); }
  }
     match parsed {
+            Partial { major: None, .. } => {
+                BoundSet::at_least(Predicate::Including((0, 0, 0).into()))
+            }
             Partial {
                 major: Some(0),
                 minor: None,
@@ -2104,6 +2109,13 @@ fn primitive_desugar(parsed: (Operation, Partial)) -> (r: Option<BoundSet>)
  }
     use Operation::*;
 match parsed {
+            // `>x` and `<x` admit nothing, every other operator on a wildcard admits everything
+            (GreaterThan | LessThan, Partial { major: None, .. }) => BoundSet::at_most(
+                Predicate::Excluding((0, 0, 0, 0).into()),
+            ),
+            (_, Partial { major: None, .. }) => {
+                BoundSet::at_least(Predicate::Including((0, 0, 0).into()))
+            }
             (GreaterThanEquals, partial) => {
                 BoundSet::at_least(Predicate::Including(partial.into()))
             }
@@ -2269,6 +2281,9 @@ fn tilde_desugar(parsed: (Option<&str>, Partial)) -> (r: Option<BoundSet>)
         assert forall|s: Seq<Identifier>| #![trigger s.len()] s.len() == 0 implies s == Seq::<Identifier>::empty() by { assert(s =~= Seq::<Identifier>::empty()); }
  }
     match parsed {
+        (_, Partial { major: None, .. }) => {
+            BoundSet::at_least(Predicate::Including((0, 0, 0).into()))
+        }
         (
             Some(_gt),
             Partial {
@@ -2442,13 +2457,7 @@ fn hyphen_desugar(lower: Option<Partial>, upper: Partial) -> (r: Option<BoundSet
                 minor: None,
                 patch: None,
                 ..
-            } => Predicate::Excluding(Version {
-                major: 0,
-                minor: 0,
-                patch: 0,
-                pre_release: vec![Identifier::Numeric(0)],
-                build: vec![],
-            }),
+            } => Predicate::Unbounded,
             Partial {
                 major: Some(major),
                 minor: None,
